@@ -1,6 +1,6 @@
 #!/bin/bash
 # confirm_daemon.sh: processes lines "<change_dir> <seed_id> <Cxx> [opts]" appended to /tmp/seed-out/queue.txt, one at a time, forever.
-Q=/tmp/seed-out/queue.txt; D=/tmp/seed-out/queue.done; touch $Q $D
+Q=/tmp/seed-out/queue$CS_ID.txt; D=/tmp/seed-out/queue$CS_ID.done; touch $Q $D
 while true; do
   n=$(wc -l < $D); line=$(sed -n "$((n+1))p" $Q)
   if [ -z "$line" ]; then sleep 20; continue; fi
